@@ -347,6 +347,9 @@ def run_property(pid, units, validate_ops, selftests, bounds, assumptions, uncov
         if r.get('cex'):
             if r['cex']['case'].get('kind') == 'pair':
                 replay_pair(rep, pid, name, r['cex'])
+            elif r['cex']['case'].get('kind') == 'freevars':
+                import c09
+                c09.replay_freevars(rep, name, r['cex'])
             elif r['cex']['case'].get('kind') == 'formula':
                 import evalcore
                 evalcore.replay_formula(rep, pid, name, r['cex'])
